@@ -540,12 +540,23 @@ func checkBowl(s Spec) h.Result {
 			return &r
 		}
 		buf := new(bytes.Buffer)
-		if err := gob.NewEncoder(buf).Encode(struct {
-			W *bowl.WriterCheckpoint
-			B *bowl.BowlCheckpoint
-		}{ck, bck}); err != nil {
-			r := fail("checkpoint cannot be gob-encoded: %v", err)
-			return &r
+		encode := func() *h.Result {
+			if err := gob.NewEncoder(buf).Encode(struct {
+				W *bowl.WriterCheckpoint
+				B *bowl.BowlCheckpoint
+			}{ck, bck}); err != nil {
+				r := fail("checkpoint cannot be gob-encoded: %v", err)
+				return &r
+			}
+			return nil
+		}
+		// the checkpoint object is held in memory and serialized either at once or (odd steps) only after the
+		// session has gone on - later Saves of the same writer must not change a checkpoint handed out before
+		late := a == 2 && k%2 == 1
+		if !late {
+			if r := encode(); r != nil {
+				return r
+			}
 		}
 		if a == 2 {
 			// the dying session goes on: one more write, maybe one more save
@@ -562,6 +573,12 @@ func checkBowl(s Spec) h.Result {
 				}
 				cl = append(cl, "bowl:session-wrote-after-the-checkpoint-it-is-resumed-from")
 			}
+		}
+		if late {
+			if r := encode(); r != nil {
+				return r
+			}
+			cl = append(cl, "checkpoint:serialized-after-a-later-Save")
 		}
 		w.Close()
 		b.Close()
